@@ -82,7 +82,10 @@ pub fn serialize_slice_zero<V: SerializeInner + ZeroCopy>(
 
 pub fn check_mismatch<V: SerializeInner>() {
     if V::ZERO_COPY_MISMATCH {
-        eprintln!("Type {} is zero-copy, but it has not declared as such; use the #[deep_copy] attribute to silence this warning", core::any::type_name::<V>());
+        // This is just a warning: we must not panic (as eprintln! does) if
+        // the standard error cannot be written.
+        use std::io::Write;
+        let _ = writeln!(std::io::stderr(), "Type {} is zero-copy, but it has not declared as such; use the #[deep_copy] attribute to silence this warning", core::any::type_name::<V>());
     }
 }
 
